@@ -41,6 +41,7 @@ def run(ctx: Ctx, chk) -> None:
     chk.run_rule(guard_mut, ctx)
     chk.run_rule(who_reg, ctx)
     chk.run_rule(listen1, ctx)
+    chk.run_rule(lambda c, k: tables.dispatch_total_rule(c, k, "incoming"), ctx)
 
 
 # ---------------------------------------------------------------------------
@@ -222,7 +223,9 @@ def node_methods(ctx: Ctx, chk) -> None:
         init = c.find_method("__init__")
         chk.instance(rule)
         st = [n for n in init.node.body if isinstance(n, ast.Assign) and norm(n.targets[0]) == f"self.{attr}"]
-        ok = len(st) == 1 and norm(st[0].value) in (f"{prm} or {{}}", f"{prm} if {prm} is not None else {{}}", "{}" if False else f"{prm} or {{}}")
+        from .common import param_or_empty_forms
+
+        ok = len(st) == 1 and norm(st[0].value) in param_or_empty_forms(prm)
         if ok:
             chk.ok(rule, f"{init.fq}::self.{attr}", norm(st[0]), init.where, sample=False)
         else:
@@ -241,6 +244,8 @@ def guard_mut(ctx: Ctx, chk) -> None:
         msg = message_param(f)
         if msg is None:
             continue
+        # a membership guard extracted into a helper is judged where it is called
+        f = ctx.inl(f, lambda h: not h.name.startswith("handle_"))
         cn = Canon(I, f)
         g = None
         for node in ctx.own_nodes(f):
